@@ -48,8 +48,11 @@ def call_score(kind, h, level, y, z, w=None):
         pat = usage_pattern(kind, h, level, y, z)
         valid_level = isinstance(level, (int, float)) and 0 < level < 1
         if pat == 3 and kind in ("hes", "hqs", "pinball") and valid_level:
-            sf = make_sf(kind, h, 0.5)
+            # constructed with other parameters, the public attributes re-assigned afterwards
+            sf = make_sf(kind, {"hes": 2.0, "hqs": 1.0}.get(kind, h), 0.5)
             sf.level = level
+            if kind in ("hes", "hqs"):
+                sf.degree = h
         else:
             sf = make_sf(kind, h, level)
         if pat == 1 and kind in ("hes", "hqs"):
